@@ -1,5 +1,5 @@
 import extract
-from rules import c02, f3
+from rules import c02, f3, common
 
 
 def run(res, tier, replay=None):
@@ -7,4 +7,15 @@ def run(res, tier, replay=None):
     res.functions = sum(1 for _ in prog.all_funcs())
     c02.run_r1(prog, res, floor=200)
     f3.r5_type_table(prog, res)
-    res.explanation = "C02 structural clauses"
+    res.assumptions = common.ASSUMPTIONS
+    res.explanation = (
+        "C02, structural clauses only. R1: every function that links a sexp_gc_var_t node into ctx->saves has an empty "
+        "link stack at every return on every CFG path (path-sensitive for stable correlated predicates), never unlinks an "
+        "unlinked node, never links twice. R5: each row of _sexp_type_specs agrees with the ASTRecordLayout of the union "
+        "member it describes (traced words are exactly the sexp fields; untraced sexp fields must be weak or listed). "
+        "Not decided: schedule independence of results as such, embedder roots, Boehm/conservative configurations.")
+    if tier == "thorough":
+        common.thorough_mutations(res, "C02", {
+            "R1": lambda p, r: c02.run_r1(p, r),
+            "R5": lambda p, r: f3.r5_type_table(p, r),
+        })
